@@ -113,6 +113,7 @@ func run(r *lib.Run) {
 	partACache(r, rp)
 	okB := partB(r, rp)
 	directedC19(r, rp)
+	heldFrames(r, rp)
 	rp.flush()
 
 	exA := r.Counter("A_exhaustive_listing_pairs") == 225 && r.Counter("A_exhaustive_subset_pairs") == 49
